@@ -5,6 +5,7 @@
 -/
 import Nice.Model.Copy
 import Nice.Props.C03
+import Nice.Props.C02Iter
 namespace Nice.Props.C02
 open Nice.Copy
 
